@@ -89,6 +89,9 @@ async def query_request(request: Request) -> JSONResponse:
                     "rowsetBase64": rowset_b64,
                     "total": cur._rowcount,  # noqa: SLF001
                     "queryResultFormat": "arrow",
+                    # the connector keeps conn.database / conn.schema up to date from these (eg: after USE)
+                    "finalDatabaseName": conn.database,
+                    "finalSchemaName": conn.schema,
                 },
                 "success": True,
             }
